@@ -54,8 +54,24 @@ def run(ctx):
     pl = None
     if vs is not None:
         eb = ExprBuilder(vs)
-        names = {d.get("name"): l for l, d in enumerate(vs.locals) if d.get("name")}
-        pl = names.get("p")
+        # the period variable, by role: the local every Excitation::start / end call receives
+        def _base_local(op):
+            n = 0
+            while op.get("k") in ("move", "copy") and not op["place"]["proj"] and n < 6:
+                l = op["place"]["local"]
+                if vs.local_name(l):
+                    return l
+                ds = [d for d in vs.defs().get(l, []) if not vs.is_cleanup(d[0])]
+                if len(ds) == 1 and ds[0][1] != "term" and ds[0][2]["rv"]["k"] == "use":
+                    op = ds[0][2]["rv"]["op"]
+                    n += 1
+                    continue
+                return l
+            return None
+        pls = set()
+        for bb_, t_ in cm.local_calls(vs, p, exact=EX + "start") + cm.local_calls(vs, p, exact=EX + "end"):
+            pls.add(_base_local(t_["args"][1]))
+        pl = pls.pop() if len(pls) == 1 else None
         vals = eb.def_exprs(pl) if pl is not None else []
         okp = okz = False
         for v in vals:
@@ -258,14 +274,16 @@ def run(ctx):
         else:
             ctx.fail("C07-R4", vf.path, "tap updates", "tap updates are %s" % [(a, c) for a, b_, c in entries], vf.loc())
         # centre = (len - 1)/2
-        names = {d.get("name"): l for l, d in enumerate(vf.locals) if d.get("name")}
-        if "center" in names:
-            ce = ExprBuilder(vf).local(names["center"])
-            pol = to_poly(ce)
-            if show(ce) in ("Div(Sub(vocoder::excitation::RingBuffer::<T>::len(self.ring_buffer), 1), 2)",):
-                ctx.ok("C07-R4", "centre = (ring_buffer.len() - 1) / 2", vf.loc())
-            else:
-                ctx.fail("C07-R4", vf.path, "centre", "centre = %s" % show(ce), vf.loc())
+        # the centre tap index, by value (whatever the variable is called)
+        veb = ExprBuilder(vf)
+        cvals = []
+        for l, d in enumerate(vf.locals):
+            if d.get("name") and l > vf.argc and len([x for x in vf.defs().get(l, []) if not vf.is_cleanup(x[0])]) == 1:
+                cvals.append(show(veb.local(l)))
+        if "Div(Sub(vocoder::excitation::RingBuffer::<T>::len(self.ring_buffer), 1), 2)" in cvals:
+            ctx.ok("C07-R4", "centre = (ring_buffer.len() - 1) / 2", vf.loc())
+        else:
+            ctx.fail("C07-R4", vf.path, "centre", "no variable holds (ring_buffer.len() - 1) / 2; single-definition variables are %s" % cvals[:6], vf.loc())
         # loops cover 0..len
         rng = []
         for bb, i, s_ in vf.iter_stmts():
@@ -362,7 +380,8 @@ def run(ctx):
                     seqs.append((tuple(a[1:]), tuple(ea[1:]), rngs, gets, loops_in_closure))
                 else:
                     seqs.append(None)
-            want = (("p", "self.fperiod"), ("p",), "std::ops::Range::Range{start: 0, end: self.fperiod}", 1, ("lpf", False, True))
+            pn = (vs.local_name(pl) if pl is not None else None) or "?"
+            want = ((pn, "self.fperiod"), (pn,), "std::ops::Range::Range{start: 0, end: self.fperiod}", 1, ("lpf", False, True))
             norm = []
             for s in seqs:
                 if s is None:
